@@ -8,7 +8,7 @@ from . import convlib
 
 PROPS = "theories/Props/C03.v"
 MODULE = "Props.C03"
-SUPPORT = ["theories/Proofs/FloatLemmas.v", "theories/Proofs/ConvFloat.v", "theories/Proofs/ErrBound.v"]
+SUPPORT = ["theories/Proofs/FloatLemmas.v", "theories/Proofs/ConvFloat.v", "theories/Proofs/Tree.v", "theories/Proofs/PowR.v", "theories/Proofs/ErrBound.v"]
 
 
 def run(ctx):
